@@ -104,11 +104,17 @@ def check(ctx, case):
                         break
             if why in ("goal", "condition") and _start_end_same_fluent(plan):
                 shape += ":start+end-effects-on-one-fluent"
+            elif why in ("goal", "condition") and _opposite_bool_effects_one_timing(plan):
+                # add-after-delete inside ONE timing of a durative action (f := true and f := false at end): the
+                # compiled instantaneous action keeps them in an order where the deletion wins (known finding)
+                shape += ":opposite-boolean-effects-at-one-timing"
             elif why == "condition" and _effect_vs_own_condition(plan):
                 shape += ":action-writes-fluent-of-its-own-later-condition"
             sig = f"converted-plan-invalid:{why}{shape}"
             if shape.endswith(":start+end-effects-on-one-fluent"):
                 sig = "converted-plan-invalid:start+end-effects-on-one-fluent"
+            if shape.endswith(":opposite-boolean-effects-at-one-timing"):
+                sig = "converted-plan-invalid:opposite-boolean-effects-at-one-timing"
             raise Violation(
                 sig,
                 f"compiled plan {desc} is valid for the compiled problem but converts back to {tdesc}, rejected by the reference temporal semantics ({why}); UP's time-triggered validator says valid={upv}",
@@ -132,6 +138,21 @@ def _start_end_same_fluent(plan):
                 by_t[t.is_from_start()] = by_t.get(t.is_from_start(), set()) | {e.fluent.fluent().name for e in effs}
             if by_t.get(True, set()) & by_t.get(False, set()):
                 return True
+    return False
+
+
+def _opposite_bool_effects_one_timing(plan):
+    from unified_planning.model import DurativeAction
+
+    for _, a, _, _ in plan:
+        if isinstance(a, DurativeAction):
+            for t, effs in a.effects.items():
+                vals = {}
+                for e in effs:
+                    if e.fluent.type.is_bool_type() and e.value.is_bool_constant():
+                        vals.setdefault(str(e.fluent), set()).add(e.value.bool_constant_value())
+                if any(len(v) == 2 for v in vals.values()):
+                    return True
     return False
 
 
